@@ -39,6 +39,7 @@ type StoreInput struct {
 	Entries    []HEntry `json:"entries,omitempty"`
 	FailOpen   int      `json:"fail_open"`
 	FailCommit int      `json:"fail_commit"`
+	Flavor     int      `json:"flavor,omitempty"` // how the injected write error is wrapped (see Store.FailFlavor)
 }
 
 // checkStoreTrace verifies the dangling-free invariant over the ordered commit log
@@ -92,7 +93,7 @@ func runStoreInput(rep *Report, in StoreInput, cf *CaseFile) (writes int) {
 		rep.Fail(prop, "stores/"+sig, what, in, exp, got)
 	}
 	st := NewStore()
-	st.FailOpenAt, st.FailCommit = in.FailOpen, in.FailCommit
+	st.FailOpenAt, st.FailCommit, st.FailFlavor = in.FailOpen, in.FailCommit, in.Flavor
 	ls := st.LinkSystem()
 	var lnk datamodel.Link
 	var err error
@@ -244,6 +245,25 @@ func scnStores(rep *Report, rng *Rng, tier string, outdir string) {
 		o := b
 		o.FailCommit = nw
 		add(o)
+		// the same failure points with the error wrapped the way file-system block stores report it
+		// (errors.Is(err, fs.ErrNotExist)): oracle only, the model does not distinguish error values
+		for _, flavor := range []int{1, 2} {
+			for k := 1; k <= nw; k += step {
+				for _, commit := range []bool{false, true} {
+					in := b
+					in.Flavor = flavor
+					if commit {
+						in.FailCommit = k
+					} else {
+						in.FailOpen = k
+					}
+					runStoreInput(rep, in, nil)
+					key, _ := json.Marshal(in)
+					rep.Count("C16", string(key), true, in)
+					rep.Dist("C16", fmt.Sprintf("flavor=%d", flavor))
+				}
+			}
+		}
 	}
 	cf.Flush()
 }
